@@ -39,6 +39,7 @@ func allEntryRoutes() []entryRoute {
 		out = append(out, entryRoute{b.name + "/simple", b.req})
 		m := b.req
 		m.Massive = true
+		m.Leaks = true
 		out = append(out, entryRoute{b.name + "/massive", m})
 	}
 	return out
